@@ -16,6 +16,10 @@ R02.5 "the same for separate and in-place buffers": with the input and output po
       input argument reads bytes that a store through the output argument has already written on some path to it
       (symbolic linear address forms with lockstep-aware joins, lib/inplace.py); pairs whose symbolic parts differ
       are not judged.
+R02.6 "every AAD length": the GHASH length block carries len(A) and len(C) as 64-bit bit counts - no 32-bit move
+      (movd / vmovd from a 32-bit sub-register, 32-bit mov) takes a value loaded from ctx->aad_length or
+      ctx->in_length, or derived from the aad_len / len arguments, into a vector register in any body that
+      builds the length block (one-shot and finalize).
 R02.3 instance floor: the four families are all offered by every GCM dispatcher of the one-shot / update /
       finalize interfaces; 96 bodies carry the argument list of aes/aes_gcm.c.
 """
@@ -119,6 +123,40 @@ def worker(lib, objname, extra):
                     add("R02.5", name, "in-place", "`%s` reads the input at an address that `%s` (%s) has already written through the output pointer when in == out (%s; %d such pair(s)): an in-place call processes its own output instead of the caller's data" % (l.text.strip(), st_.text.strip(), o.line_of(key[1], st_.addr), d, len(ipr.hazards)), l.addr, key[1])
                 else:
                     out["ip_ok"] = out.get("ip_ok", 0) + 1
+        # R02.6 width of the length block
+        if "auth_tag" in names and extra.get("ctx_fields") and "context_data" in names and not names["context_data"].startswith("ARG@"):
+            ctxreg = names["context_data"]
+            offs = {extra["ctx_fields"][k][0]: k for k in ("aad_length", "in_length")}
+            out["lenblk_bodies"] = out.get("lenblk_bodies", 0) + 1
+            p1k = absint.Interp(lib, lambda t, c=None: c19.summary_of(lib, t, c), keep_regs=True).run(f)
+            nmoves = 0
+            badm = None
+            for i in allins:
+                mn = i.text.strip().split()[0].lower()
+                if mn not in ("movd", "vmovd", "movq", "vmovq", "pinsrd", "vpinsrd", "pinsrq", "vpinsrq"):
+                    continue
+                # GPR -> vector moves only
+                srcs = [r for r in i.explicit_uses() if r in x86.PARENT]
+                if not srcs or i.mem >= 0:
+                    continue
+                st_ = p1k.reg_at.get(i.addr) or {}
+                v = st_.get(x86.PARENT[srcs[-1]])
+                rs = absint.roots(v) if v is not None else None
+                which = None
+                for r in (rs or ()):
+                    if isinstance(r, tuple) and r and r[0] == "ld" and ctxreg in r[1] and r[2] in offs:
+                        which = "ctx->" + offs[r[2]]
+                if which is None:
+                    continue
+                nmoves += 1
+                if x86.WIDTH.get(srcs[-1], 64) < 64 and badm is None:
+                    badm = (i, which, srcs[-1])
+            out["lenblk_moves"] = out.get("lenblk_moves", 0) + nmoves
+            if badm:
+                i, which, r_ = badm
+                add("R02.6", name, "length-block-width:" + which, "`%s` moves only the low 32 bits (%s) of a value derived from %s into the GHASH length block: for %s of 2^29 bytes or more the bit count is truncated and the tag differs from SP 800-38D (and from the families that move 64 bits)" % (i.text.strip(), r_.lower(), which, "an AAD" if "aad" in which else "a message"), i.addr, key[1])
+            else:
+                out["lenblk_ok"] = out.get("lenblk_ok", 0) + 1
         # R02.2
         if "auth_tag" in names and "auth_tag_len" in names:
             out["tag_bodies"] += 1
@@ -210,13 +248,20 @@ def run(chk):
     nbind = cands.binding_rule(chk, "R02.4", lib, ['_aes_gcm_'])
     chk.floor("implementations checked for binding ownership", nbind, 1)
     objs = sorted({lib._by_name[c][0] for c in cand if c in lib._by_name})
-    res = par.map_objects(lib, worker, objs, extra={"cand": cand})
+    ctx_fields = None
+    for M_ in mods.values():
+        ds = M_.distructs.get("isal_gcm_context_data")
+        if ds:
+            ctx_fields = {m["name"]: (m["off"], m["size"]) for m in ds["members"]}
+    if not ctx_fields or "aad_length" not in ctx_fields or "in_length" not in ctx_fields:
+        chk.broke("struct isal_gcm_context_data not found in DWARF")
+    res = par.map_objects(lib, worker, objs, extra={"cand": cand, "ctx_fields": ctx_fields})
     tot = collections.Counter()
     for objname in sorted(res):
         r = res[objname]
         for k in ("bodies", "sinks", "buf_acc", "tag_bodies", "tag_cases", "tag_ok", "align_ok"):
             tot[k] += r[k]
-        for k in ("ip_bodies", "ip_pairs", "ip_ok"):
+        for k in ("ip_bodies", "ip_pairs", "ip_ok", "lenblk_bodies", "lenblk_moves", "lenblk_ok"):
             tot[k] += r.get(k, 0)
         for b in r["broken"]:
             chk.broke(b)
@@ -228,6 +273,9 @@ def run(chk):
     chk.obligations["R02.1"] = [tot["bodies"], tot["align_ok"]]
     chk.obligations["R02.2"] = [tot["tag_cases"], tot["tag_ok"]]
     chk.obligations["R02.5"] = [tot["ip_bodies"], tot["ip_ok"]]
+    chk.obligations["R02.6"] = [tot["lenblk_bodies"], tot["lenblk_ok"]]
+    chk.floor("bodies that build the GHASH length block", tot["lenblk_bodies"], 16)
+    chk.floor("GPR-to-vector moves of the carried lengths seen", tot["lenblk_moves"], 24)
     chk.floor("bodies analysed for in-place hazards", tot["ip_bodies"], 64)
     chk.floor("output-store / input-load pairs with a common symbolic address compared", tot["ip_pairs"], 10000)
     chk.extra["in_place_pairs_compared"] = tot["ip_pairs"]
